@@ -6,6 +6,8 @@ import syntax as SX
 from props.C01 import nfa_lit
 
 COQ_IMPORTS = ['Model.DFA', 'Model.NFA', 'Model.Tokens', 'Model.Naming', 'Judge.Common', 'Judge.C03_judge', 'Judge.Extra_judge']
+PDA_FREE = True      # no PDA is involved: the recycling pass runs with GambaTools.pda_epsilon_closure_max_iterations = 3
+LOG_SAFE = True      # no printed output is read back: the recycling pass runs with GambaTools.enable_logging = True
 EXTRA_JUDGES = ['Extra']
 RULE = ('all 2-state epsilon-NFAs over one symbol (1024; thorough: a sample of 2 symbols), random epsilon-NFAs <=6 states x <=3 symbols with epsilon cycles, dead ends, empty/full F, empty alphabet, '
         'under 2 (quick) / 8 (thorough) PYTHONHASHSEED values; nfa_to_dfa; each DFA state name is read back as a set of NFA states. Relation: total valid DFA, same alphabet, language-equal to the NFA '
